@@ -30,24 +30,34 @@ func (*inRange) Exit(node *Node) {
 						if size := to.Value - from.Value + 1; to.Value >= from.Value && (size <= 0 || size >= 1e6) {
 							return
 						}
-						Patch(node, &BinaryNode{
+						// The comparisons stand for the membership test: a
+						// failure in them is located where it was written.
+						lower := &BinaryNode{
+							Operator: ">=",
+							Left:     n.Left,
+							Right:    from,
+						}
+						lower.SetLocation(n.Location())
+						upper := &BinaryNode{
+							Operator: "<=",
+							Left:     n.Left,
+							Right:    to,
+						}
+						upper.SetLocation(n.Location())
+						both := &BinaryNode{
 							Operator: "and",
-							Left: &BinaryNode{
-								Operator: ">=",
-								Left:     n.Left,
-								Right:    from,
-							},
-							Right: &BinaryNode{
-								Operator: "<=",
-								Left:     n.Left,
-								Right:    to,
-							},
-						})
+							Left:     lower,
+							Right:    upper,
+						}
+						both.SetLocation(n.Location())
+						Patch(node, both)
 						if n.Operator == "not in" {
-							Patch(node, &UnaryNode{
+							negated := &UnaryNode{
 								Operator: "not",
 								Node:     *node,
-							})
+							}
+							negated.SetLocation(n.Location())
+							Patch(node, negated)
 						}
 					}
 				}
